@@ -667,6 +667,62 @@ func declaredLengthProbe(c *Ctx) {
 	}
 }
 
+// codingCodec is a raw codec whose Unmarshal reports its failures as *connect.Error values with a
+// code of its own (a codec written by somebody who wraps every error they return).
+type codingCodec struct{ rawCodec }
+
+func (c codingCodec) Unmarshal(data []byte, msg any) error {
+	if err := c.rawCodec.Unmarshal(data, msg); err != nil {
+		return connect.NewError(connect.CodeInternal, err)
+	}
+	return nil
+}
+
+// codedCodecErrorProbe (C07, oracle only): an undecodable payload reaches the peer as
+// invalid_argument - whatever the codec calls its own failure (round 11, C07-mp: a coded error
+// from the codec passed through with the codec's code).
+func codedCodecErrorProbe(c *Ctx) {
+	for _, proto := range []string{"connect", "grpc", "grpcweb"} {
+		for _, kind := range []string{"unary", "client"} {
+			runs := 0
+			opts := []connect.HandlerOption{connect.WithCodec(codingCodec{rawCodec{"raw"}})}
+			var h http.Handler
+			if kind == "unary" {
+				h = connect.NewUnaryHandler("/s/m", func(ctx context.Context, r *connect.Request[[]byte]) (*connect.Response[[]byte], error) {
+					runs++
+					return connect.NewResponse(&[]byte{1}), nil
+				}, opts...)
+			} else {
+				h = connect.NewClientStreamHandler("/s/m", func(ctx context.Context, s *connect.ClientStream[[]byte]) (*connect.Response[[]byte], error) {
+					for s.Receive() {
+						runs++
+					}
+					return connect.NewResponse(&[]byte{1}), s.Err()
+				}, opts...)
+			}
+			desc := fmt.Sprintf("%s %s handler whose codec reports an undecodable payload as a *connect.Error with code internal", proto, kind)
+			c.Begin(desc)
+			c.Count("coded-codec-error-probe")
+			got := safely(func() string {
+				body := []byte{0xEE, 1, 2}
+				if !(proto == "connect" && kind == "unary") {
+					body = frame(0, body)
+				}
+				req := httptest.NewRequest(http.MethodPost, "/s/m", bytes.NewReader(body))
+				req.ProtoMajor, req.ProtoMinor, req.Proto = 2, 0, "HTTP/2.0"
+				req.Header.Set("Content-Type", ctFor(proto, kind, "raw"))
+				rec := httptest.NewRecorder()
+				h.ServeHTTP(rec, req)
+				code, note := responseErrorCode(proto, kind, rec)
+				return fmt.Sprintf("delivered=%d code=%d malformed=%q", runs, code, strings.TrimSpace(note))
+			})
+			if got != "delivered=0 code=3 malformed=\"\"" {
+				c.Fail("req-undecodable-code", desc, got, "an undecodable payload reaches the peer as invalid_argument in a well-formed response")
+			}
+		}
+	}
+}
+
 // freshPoolProbe: the very first compressed request a handler sees is not compressed data at
 // all (a fresh decompressor, never successfully reset): invalid_argument in a well-formed
 // response, no panic - with the built-in gzip too (round 10, C07-mm).
@@ -770,6 +826,7 @@ func streamReq(c *Ctx) {
 	sealedProbe(c)
 	nilConstructorProbe(c)
 	freshPoolProbe(c)
+	codedCodecErrorProbe(c)
 	unofferedEncodingProbe(c)
 	declaredLengthProbe(c)
 	invalidUTF8PayloadProbe(c)
